@@ -109,6 +109,7 @@ def main():
     known_obl = []
     checker_cmds = []
 
+    undecided_units = set()
     units = P.get('verus', [])
     if args.only:
         units = [u for u in units if u == args.only]
@@ -133,6 +134,7 @@ def main():
         r = results[('main', u)]
         if r['extract_error']:
             undecided.append('%s: %s' % (u, r['extract_error']))
+            undecided_units.add(u)
             continue
         ur = r['main']
         checker_cmds.append(ur.cmd)
@@ -143,6 +145,7 @@ def main():
         if ur.compile_errors:
             for ce in ur.compile_errors[:3]:
                 undecided.append('%s: generated file does not type-check: %s (gen line %s)' % (u, ce['message'][:200], ce['line']))
+            undecided_units.add(u)
             continue
         if not ur.fn_results and not ur.summary:
             undecided.append('%s: verus produced no result (rc=%s): %s' % (u, ur.rc, ur.stderr_tail[-300:]))
@@ -328,6 +331,22 @@ def main():
         if selftest['survivors']:
             undecided.append('self-test: contract too weak, surviving mutants: %s' % selftest['survivors'])
 
+    # ---------------------------------------------------------------- bounded stand-in for units that could not be brought under contract
+    # (the function was restructured so that the overlay no longer applies): the unit's replay oracle - an executable restatement
+    # of the same postcondition, run on the real code over a stated finite set of inputs - may still find a concrete failing input.
+    oracle_standins = []
+    for u in sorted(undecided_units):
+        orc = registry.UNITS[u].get('oracle')
+        if not orc:
+            continue
+        ok, info = run_oracle(orc, args.repo)
+        fails = [l for l in info.split('\n') if 'FAILING INPUT' in l][:5]
+        oracle_standins.append({'unit': u, 'oracle': orc['file'], 'kind': 'bounded', 'failing_input_found': ok, 'failing_inputs': fails})
+        if ok:
+            violations.append({'obligation': 'bounded-oracle::%s' % u, 'unit': u, 'function': None, 'kind': 'bounded-oracle',
+                               'message': 'unit %s could not be extracted (code restructured); its bounded replay oracle found a failing input on the real code' % u,
+                               'clause': (fails[0] if fails else '')[:300], 'source': orc['target'], 'rendered': info[-3000:], 'oracle_found': True})
+
     wall = time.time() - t_start
     # ---------------------------------------------------------------- verdict
     rc = 0
@@ -350,6 +369,8 @@ def main():
         for v in violations:
             entry = {k: v.get(k) for k in ('obligation', 'unit', 'function', 'kind', 'message', 'clause', 'source', 'why')}
             entry['verifier_output'] = v.get('rendered')
+            if v.get('oracle_found'):
+                found_input = True
             if v.get('playback'):
                 entry['counterexample_test'] = v['playback']
                 entry['replayed_on_real_code'] = v.get('replayed_on_real_code')
@@ -358,9 +379,15 @@ def main():
                     found_input = True
             rep['failed_obligations'].append(entry)
         # replay oracles
+        oracles_done = set()
         for v in violations:
             orc = registry.UNITS.get(v.get('unit'), {}).get('oracle') if v.get('unit') in registry.UNITS else None
+            if orc and v.get('oracle_found'):
+                continue
+            if orc and orc['file'] in oracles_done:
+                continue
             if orc:
+                oracles_done.add(orc['file'])
                 ok, info = run_oracle(orc, args.repo)
                 rep.setdefault('oracle_runs', []).append({'unit': v['unit'], 'oracle': orc, 'found_failing_input': ok, 'output': info[-3000:]})
                 if ok:
@@ -390,7 +417,7 @@ def main():
             'rewrites_applied': rewrites[:200],
             'canaries_failed_as_expected': canaries_ok,
             'known_finding_obligations': known_obl,
-            'selftest': selftest, 'z3_seeds': seeds_run,
+            'selftest': selftest, 'z3_seeds': seeds_run, 'oracle_standins': oracle_standins,
             'samples': samples or [{'note': 'no obligation generated'}],
             'undecided': undecided,
         },
